@@ -79,7 +79,8 @@ RULE = ("time stamps / intervals / boxes on exhaustive small grids touching time
         "start - tb, low - fb, high + fb within 2^-20 .. 2^-40 of 0 / MAX_FREQUENCY at magnitudes 1 .. 1e7; every point of the "
         "0.01 s / 0.1 Hz buffer lattices; dense geometries with 16 .. 2000 vertices (each size threshold +-1) x seven smooth "
         "shapes; nine types x call shapes (keyword, positional, reversed keywords, mixed, zero buffers omitted) x number "
-        "representations (float, int, numpy float64 / float32 / int64, bool) x twelve construction paths (validator, "
+        "representations (float, int, bool, numpy float64 / float32 / float16, int8 .. int64, uint8 .. uint64, bool_; mixed "
+        "pairs, both buffers of one type, and the largest value of each narrow type) x twelve construction paths (validator, "
         "constructor, model_validate, JSON, copies, tuples, ints, numpy coordinates, subclass); histories: a call with an "
         "option for shapely.buffer followed by plain calls (8 options x 6 target types), and random sessions x, neighbour of x "
         "(other buffers / zero buffer / options / other call shape / other geometry), x again with reused argument objects "
@@ -180,7 +181,7 @@ SHAPES = ("kw", "pos", "kwrev", "mixed", "omit")
 NUMS = ("float", "int", "np64", "np32", "npint", "bool",
         # numpy scalars as they come out of typed arrays / parsed headers: unsigned integers (unary minus and
         # subtraction wrap around in their own type), narrow signed integers, narrow floats
-        "npu8", "npu16", "npu32", "npu64", "npi8", "npi16", "npi32", "npf16")
+        "npu8", "npu16", "npu32", "npu64", "npi8", "npi16", "npi32", "npf16", "npbool")
 _NP_INTS = {"npu8": ("uint8", 0, 2 ** 8), "npu16": ("uint16", 0, 2 ** 16), "npu32": ("uint32", 0, 2 ** 32),
             "npu64": ("uint64", 0, 2 ** 64), "npi8": ("int8", -2 ** 7, 2 ** 7), "npi16": ("int16", -2 ** 15, 2 ** 15),
             "npi32": ("int32", -2 ** 31, 2 ** 31)}
@@ -218,6 +219,8 @@ def _repr_num(q, kind):
         return getattr(np, _NP_INTS[kind][0])(int(q))
     if kind == "npf16" and abs(x) <= 2048 and float(np.float16(x)) == x:
         return np.float16(x)
+    if kind == "npbool" and q in (0, 1):
+        return np.bool_(bool(q))
     return x
 
 
@@ -1837,7 +1840,11 @@ _NUM_VALUES = {"float": [(Fraction(3, 8), Fraction(5, 2)), (0, Fraction(5, 2)), 
                "npu64": [(3, 1), (0, 7), (5, 0)], "npi8": [(3, 5), (0, 1), (7, 0)], "npi16": [(1, 300), (0, 3), (5, 0)],
                "npi32": [(5, 3), (0, 70000), (1, 0)],
                # binary16: buffers whose reciprocal (the scale factor of the pipeline) is exact in that type too
-               "npf16": [(Fraction(1, 2), Fraction(1, 4)), (0, 2), (Fraction(1, 8), 0)]}
+               "npf16": [(Fraction(1, 2), Fraction(1, 4)), (0, 2), (Fraction(1, 8), 0)],
+               "npbool": [(1, 1), (0, 1), (1, 0)]}
+# the largest buffer of a narrow type (twice it does not fit the type any more); binary64 holds all of them exactly
+_NUM_LIMITS = {"npu8": 2 ** 8 - 1, "npi8": 2 ** 7 - 1, "npu16": 2 ** 16 - 1, "npi16": 2 ** 15 - 1, "npu32": 2 ** 32 - 1,
+               "npi32": 2 ** 31 - 1, "npu64": 2 ** 40 + 1, "npint": 2 ** 40 + 1, "npf16": 1024, "np32": 2 ** 24 - 1}
 
 
 def variant_cases(rng, full=False):
@@ -1856,6 +1863,11 @@ def variant_cases(rng, full=False):
         for i, nt in enumerate(NUMS):
             for j, (tb, fb) in enumerate(_NUM_VALUES[nt]):
                 yield {**_case(g, tb, fb), "how": {"shape": SHAPES[(i + j) % len(SHAPES)], "nt": nt, "nf": nt}}
+        # buffers at the upper end of a narrow type (closed forms; points, which take buffers of any size)
+        if ty in CLOSED or ty in ("Point", "MultiPoint"):
+            for i, (nt, lim) in enumerate(sorted(_NUM_LIMITS.items())):
+                for j, (tb, fb) in enumerate([(lim, lim), (lim, 0), (0, lim)] if ty in CLOSED else [(lim, lim)]):
+                    yield {**_case(g, tb, fb), "how": {"shape": SHAPES[(i + j) % len(SHAPES)], "nt": nt, "nf": nt}}
         for k, path in enumerate(PATHS):
             for j, (tb, fb) in enumerate(_NUM_VALUES["float"]):
                 yield {**_case(g, tb, fb), "how": {"shape": SHAPES[(k + j) % len(SHAPES)], "path": path}}
